@@ -51,6 +51,99 @@ def check(i: int, mode: int, args: tuple) -> bool:
     return gen.decode(got) == d
 
 
+# ---------------------------------------------------------------- keyword-like operand names
+# identifiers that merely start / end with (or contain) a keyword, in every operand position a printer can put them:
+# the name is a symbolic pick per position, the operator next to it a symbolic choice.
+KW_NAMES = ["order_id", "android", "notes", "nullx", "inx", "eqa", "true1", "falsey", "add1", "modx", "divx", "anyone",
+            "all_", "geox", "xor", "band", "snot", "gea", "lty", "nex", "submul", "orand"]
+KW_SHAPES: List[dict] = []
+_N = ("$", None)
+
+
+def _kw_forms() -> List[tuple]:
+    op = ("#", None, gen.ALL_BIN)
+    un = ("#", None, gen.UN_OPS)
+    idn = ("Id", _N, ())
+    return [
+        ("left-operand", ("Bin", op, idn, ("Int", "1"))),
+        ("right-operand", ("Bin", op, ("Int", "1"), idn)),
+        ("both-operands", ("Bin", op, idn, idn)),
+        ("unary-operand", ("Compare", "Eq", ("UnaryOp", un, idn), ("Int", "1"))),
+        ("unary-then-binary", ("Bin", op, ("UnaryOp", un, idn), idn)),
+        ("list-items", ("Compare", "In", idn, ("List", [("Int", "1"), idn, idn]))),
+        ("list-first-item", ("Compare", "In", ("Id", "a", ()), ("List", [idn, ("Str", "s"), idn]))),
+        ("call-args", ("Compare", "Eq", ("Call", ("Id", "concat", ()), [idn, idn]), ("Str", "s"))),
+        ("call-arg-after-literal", ("Call", ("Id", "contains", ()), [("Str", "s"), idn])),
+        ("custom-call-name", ("Compare", "Eq", ("Call", ("Id", _N, ("ns",)), [idn]), ("Int", "1"))),
+        ("namespace-segment", ("Compare", "Eq", ("Call", ("Id", "f", (_N,)), [("Int", "1"), idn]), ("Int", "1"))),
+        ("named-param", ("Compare", "Eq", ("Call", ("Id", "f", ("ns",)), [("NamedParam", ("Id", _N, ()), idn),
+                                                                         ("NamedParam", ("Id", _N, ()), ("Int", "2"))]), ("Int", "1"))),
+        ("path-segments", ("Bin", op, ("Attr", ("Attr", idn, _N), _N), ("Int", "1"))),
+        ("path-right", ("Bin", op, ("Int", "1"), ("Attr", idn, _N))),
+        ("lambda-body-start", ("CLambda", ("Id", "items", ()), ("#", None, ("Any", "All")),
+                               ("Lambda", ("Id", "i", ()), ("Bin", op, idn, ("Attr", ("Id", "i", ()), "k"))))),
+        ("lambda-variable", ("CLambda", ("Attr", ("Id", "a", ()), _N), ("#", None, ("Any", "All")),
+                             ("Lambda", ("Id", ("$", 0), ()), ("Compare", "Eq", ("Attr", ("Id", ("$", 0), ()), _N), idn)))),
+        ("bool-chain", ("BoolOp", ("#", None, gen.BOOL_OPS), ("Compare", "Eq", idn, ("Int", "1")),
+                        ("BoolOp", ("#", None, gen.BOOL_OPS), idn, ("UnaryOp", "Not", idn)))),
+    ]
+
+
+def check_kw(i: int, mode: int, args: tuple) -> bool:
+    sh = KW_SHAPES[i]
+    vals = []
+    for h, a in zip(sh["holes"], args):
+        vals.append(gen.pick(KW_NAMES, a) if h[0] == "$" else a)
+    t = gen.build(sh["expr"], tuple(vals))
+    d = gen.decode(t)
+    text = refprint.render(d, full=bool(mode))
+    return gen.decode(_parse(text)) == d
+
+
+def kw_product(run: Run, limit: int) -> None:
+    """Supplement, labelled concrete: the full product names x names x operators of every form (all name holes vary
+    independently up to two at a time), parsed outside CrossHair."""
+    import random
+    rng = random.Random(run.seed)
+    n = bad = 0
+    for i, sh in enumerate(KW_SHAPES):
+        hs = sh["holes"]
+        strs = [j for j, h in enumerate(hs) if h[0] == "$"]
+        ops = [j for j, h in enumerate(hs) if h[0] == "#"]
+        pairs = [(a, b) for a in strs for b in strs if a < b] or [(a, a) for a in strs]
+        combos = []
+        for a, b in pairs:
+            for va in range(len(KW_NAMES)):
+                for vb in range(len(KW_NAMES)):
+                    combos.append((a, va, b, vb))
+        rng.shuffle(combos)
+        for a, va, b, vb in combos[:max(1, limit // len(KW_SHAPES) // 4)]:
+            for opv in itertools.product(*[range(len(hs[j][2])) for j in ops]) if len(ops) <= 1 else \
+                    [tuple(rng.randrange(len(hs[j][2])) for j in ops) for _ in range(4)]:
+                args = [(n + 5 * j) % len(KW_NAMES) if h[0] == "$" else 0 for j, h in enumerate(hs)]
+                args[a], args[b] = va, vb
+                for j, v in zip(ops, opv):
+                    args[j] = v
+                for mode in (0, 1):
+                    n += 1
+                    try:
+                        ok = check_kw(i, mode, tuple(args))
+                    except Exception as e:  # noqa: BLE001
+                        ok = False
+                    if not ok and bad < 5:
+                        bad += 1
+                        vals = [KW_NAMES[x] if h[0] == "$" else h[2][x] for h, x in zip(hs, args)]
+                        t = gen.build(sh["expr"], tuple(KW_NAMES[x] if h[0] == "$" else x for h, x in zip(hs, args)))
+                        text = refprint.render(gen.decode(t), full=bool(mode))
+                        run.violation(f"kw-product:{sh['form']}:{vals}", {"call": f"check_kw({i}, {mode}, {tuple(args)!r})", "args": [], "harness": "kw_product", "text": text,
+                                                                        "how_to_replay": "parse(text) and compare with the tree that was printed"},
+                                      f"{text!r} does not parse back to the tree it was printed from (keyword-like operand names)",
+                                      "keyword-like-names(concrete product)")
+    if not bad:
+        run.discharged(f"kw-product: {n} renderings of {len(KW_SHAPES)} forms x name pairs x operators parse back", "keyword-like-names(concrete product)",
+                       nontrivial=False)
+
+
 def skeletons(k: int) -> List[Any]:
     """all skeletons with exactly k operator nodes: B = binary (13 ops), I = `in`, U = unary; leaves = None."""
     if k == 0:
@@ -78,6 +171,10 @@ def to_shape(sk: Any, leaf_iter, fixed_top=None) -> Any:
 
 def prepare(tier: str, seed: int) -> None:
     SHAPES[:] = []
+    KW_SHAPES[:] = []
+    for name, form in _kw_forms():
+        sh, hs = gen.renumber(form)
+        KW_SHAPES.append({"form": name, "expr": sh, "holes": hs})
     maxk = 2 if tier == "quick" else 3
     n = 0
     for k in range(1, maxk + 1):
@@ -125,9 +222,46 @@ def main() -> int:
             items.append(Item(f"s{i}_{mname}", params, pre, f"check({i}, {mode}, {argt})",
                               describe={"skeleton": sh["skeleton"], "top": sh["top"], "rendering": mname},
                               family=f"k={sh['k']}:{mname}"))
+    run.bounds["keyword-like names"] = {"names": KW_NAMES, "forms": [k["form"] for k in KW_SHAPES],
+                                        "choice": "per obligation one (next to a symbolic operator) or two name holes are symbolic picks over all "
+                                                  "names, the other holes take seeded names; one obligation per choice of the symbolic "
+                                                  "holes; operators symbolic; minimal and full parentheses"}
+    for i, sh in enumerate(KW_SHAPES):
+        strs = [h for h in sh["holes"] if h[0] == "$"]
+        # the case split per obligation stays below ~100 paths (a parse under CrossHair's tracer costs ~0.3 s): one name
+        # hole is a symbolic pick over all names, every other name hole takes a seeded fixed name; one obligation per choice
+        # of the symbolic hole; the exhaustive product is swept concretely in addition (kw_product)
+        nsym = 1
+        for r in range(max(1, len(strs))):
+            sym = {strs[(r + j) % len(strs)][1] for j in range(min(nsym, len(strs)))} if strs else set()
+            if r and len(sym) == len(strs):
+                break           # every name hole is symbolic already
+            fixed = {h[1]: (run.seed + 3 * j + 1) % len(KW_NAMES) for j, h in enumerate(strs) if h[1] not in sym}
+            ps, pre, names = [], [], []
+            for h in sh["holes"]:
+                if h[1] in fixed:
+                    names.append(str(fixed[h[1]]))
+                    continue
+                ps.append(f"x{h[1]}: int")
+                if h[0] == "#" and len(h[2]) > 3 and quick:
+                    w0 = (3 * (i + r + run.seed)) % len(h[2])
+                    win = tuple(sorted({(w0 + j) % len(h[2]) for j in range(3)}))
+                    pre.append(f"x{h[1]} in {win!r}")       # quick: a rotating window of 3 operators per obligation
+                else:
+                    pre.append(f"0 <= x{h[1]} < {len(KW_NAMES) if h[0] == '$' else len(h[2])}")
+                names.append(f"x{h[1]}")
+            for mode, mname in ((0, "min"), (1, "full")):
+                if quick and mode and r:
+                    continue
+                items.append(Item(f"kw{i}_{r}_{mname}", ", ".join(ps), " and ".join(pre) or "True",
+                                  f"check_kw({i}, {mode}, ({', '.join(names)},))",
+                                  describe={"form": sh["form"], "rendering": mname, "symbolic name holes": sorted(sym)},
+                                  family="keyword-like-names:" + mname))
     for sh in SHAPES[:3]:
         run.sample({"skeleton": sh["skeleton"], "shape": sh["expr"]})
-    header = "from verif.props.c05 import check\n"
+    header = "from verif.props.c05 import check, check_kw\n"
     run_items(run, header, items, per_condition_timeout=120 if quick else 600,
               progress=bool(os.environ.get("VERIF_PROGRESS")))
+    if not os.environ.get("VERIF_DEV_FAMILY") or "keyword" in os.environ["VERIF_DEV_FAMILY"]:
+        kw_product(run, 20000 if quick else 400000)
     return run.finish()
